@@ -634,3 +634,108 @@ def outparam_kill_rule(chk, prog, rule="OUTKILL"):
                                 % (callee_name(c1), p1, callee_name(c2), p2))
     chk.floor("consecutive calls sharing an out-parameter", n, 2)
     return n
+
+
+# --------------------------------------------------------------------------
+# ZREAD: no field of the per-line record is read before anything can have written it
+# --------------------------------------------------------------------------
+
+def zero_read_rule(chk, prog, roles, rule="ZREAD"):
+    """The per-line record starts as `{0}` for every line.  Walking the pipeline in program order from the driver (callees entered
+    at their call sites, loop bodies taken twice, both branches of a choice taken one after the other so that what either may
+    write counts as written), a scalar field of the record that is read at a point where no store to it - nor to anything whose
+    address was handed out - can have happened yet is still its zero initialiser on every execution: the test or value that
+    uses it is constant, which is never what the author meant (a field consulted before the stage that computes it)."""
+    lib = prog.lib_functions()
+    REC = ("instr", "operand", "keywords", "prefix")
+    reports, nreads = [], [0]
+    marked = set()
+
+    def mark_bases(f):
+        if id(f) in marked:
+            return
+        marked.add(id(f))
+        for m in walk(prog.body(f)):
+            if m.get("kind") == "MemberExpr" and kids(m):
+                b = strip(kids(m)[0], casts=True)
+                if b and b.get("kind") == "MemberExpr":
+                    b["_base"] = True
+                if b and b.get("kind") == "ArraySubscriptExpr":
+                    bb = strip(kids(b)[0], casts=True)
+                    if bb and bb.get("kind") == "MemberExpr":
+                        bb["_base"] = True
+
+    def scan(fn, written, depth, report):
+        f = lib[fn]
+        mark_bases(f)
+
+        def visit(n, report):
+            n0 = strip(n)
+            if not n0:
+                return
+            k, ks = n0.get("kind"), kids(n0)
+            if k in ("BinaryOperator", "CompoundAssignOperator") and n0.get("opcode", "").endswith("=") and \
+                    n0.get("opcode") not in ("==", "!=", "<=", ">="):
+                visit(ks[1], report)
+                l = strip(ks[0])
+                if l.get("kind") == "MemberExpr":
+                    o, fl = EFF.owner_field(l)
+                    for c in kids(l):
+                        visit(c, report)
+                    if o in REC:
+                        written.add((o, fl))
+                    return
+                visit(ks[0], report)
+                return
+            if k == "UnaryOperator" and n0.get("opcode") in ("++", "--", "&"):
+                l = strip(ks[0])
+                if l.get("kind") == "MemberExpr":
+                    o, fl = EFF.owner_field(l)
+                    if o in REC:
+                        written.add((o, fl))
+                        for c in kids(l):
+                            visit(c, report)
+                        return
+            if k == "MemberExpr":
+                o, fl = EFF.owner_field(n0)
+                if o == "keywords" and any(w[0] == "keywords" for w in written):
+                    written.add((o, fl))        # the keyword flags overlay one another (union with is_keyword)
+                if o in REC and not n0.get("_base") and "[" not in qtype(n0):
+                    if report:
+                        nreads[0] += 1
+                    if (o, fl) not in written and report:
+                        reports.append((fn, n0, o, fl))
+                for c in ks:
+                    visit(c, report)
+                return
+            if k == "CallExpr":
+                for a in call_args(n0):
+                    visit(a, report)
+                cn = callee_name(n0)
+                if cn in lib and depth < 8:
+                    scan(cn, written, depth + 1, report)
+                return
+            if k == "VarDecl" and qtype(n0).replace("const ", "").strip() == "struct instr":
+                written.clear()             # a fresh record: nothing of an earlier line is left
+            if k in ("WhileStmt", "ForStmt", "DoStmt"):
+                for c in ks:
+                    visit(c, False)
+                for c in ks:
+                    visit(c, report)
+                return
+            for c in ks:
+                visit(c, report)
+        visit(prog.body(f), report)
+    scan(roles.driver, set(), 0, True)
+    seen = set()
+    for fn, node, o, fl in reports:
+        key = "%s/%s/%s.%s" % (rule, fn, o, fl)
+        if key in seen:
+            continue
+        seen.add(key)
+        chk.bad(rule, key, loc_str(node), "a field of the per-line record is read only after something can have stored into it",
+                "%s is read in %s before any store to it can have run: it is always its zero initialiser here" % (expr_str(node), fn))
+    if not reports:
+        chk.ok(rule, rule + "/all", loc_str(prog.fn(roles.driver)), "%d reads of record fields, each preceded by a possible store" % nreads[0])
+    chk.floor("reads of per-line record fields on the pipeline walk", nreads[0], 150)
+    return nreads[0]
